@@ -21,6 +21,37 @@ pub enum Prior {
     MetaGarbage { variant: usize },
     IndexMissing,
     IndexEmptyDir,
+    /// Any index state combined with any metadata state (the pair
+    /// other-documents + fully current metadata is excluded: that metadata
+    /// would legitimately vouch for the index).
+    Combo { index: IndexState, meta: MetaState },
+}
+
+#[derive(Clone, Debug, Serialize, Deserialize, PartialEq)]
+#[serde(rename_all = "snake_case")]
+pub enum IndexState {
+    Complete,
+    OtherDocuments,
+    Missing,
+    EmptyDir,
+}
+
+#[derive(Clone, Debug, Serialize, Deserialize, PartialEq)]
+#[serde(tag = "meta", rename_all = "snake_case")]
+pub enum MetaState {
+    Current,
+    OtherVersion,
+    StaleHash,
+    OtherVersionStaleHash,
+    Missing,
+    Truncated { at: usize },
+    Garbage { variant: usize },
+    /// current version, no hash field
+    NoHash,
+    /// current hash, no version field
+    NoVersion,
+    /// current version, hash null
+    NullHash,
 }
 
 #[derive(Clone, Debug, Serialize, Deserialize)]
@@ -193,7 +224,82 @@ fn prepare(dir: &Path, prior: &Prior) {
             let _ = std::fs::remove_dir_all(facts_dir.join("index"));
             std::fs::create_dir_all(facts_dir.join("index")).unwrap();
         }
+        Prior::Combo { index, meta: m } => {
+            copy_dir(&r.template, dir);
+            let idx = facts_dir.join("index");
+            match index {
+                IndexState::Complete => {}
+                IndexState::OtherDocuments => {
+                    let _ = std::fs::remove_dir_all(&idx);
+                    copy_dir(&r.other_index, &idx);
+                }
+                IndexState::Missing => {
+                    let _ = std::fs::remove_dir_all(&idx);
+                }
+                IndexState::EmptyDir => {
+                    let _ = std::fs::remove_dir_all(&idx);
+                    std::fs::create_dir_all(&idx).unwrap();
+                }
+            }
+            let ver = r.meta["version"].clone();
+            let hash = r.meta["database_hash"].clone();
+            match m {
+                MetaState::Current => {}
+                MetaState::OtherVersion => set_meta(&|v| v["version"] = json!("9.9.9-other")),
+                MetaState::StaleHash => set_meta(&|v| v["database_hash"] = json!("feedfacefeedfacefeedfacefeedface")),
+                MetaState::OtherVersionStaleHash => set_meta(&|v| {
+                    v["version"] = json!("9.9.9-other");
+                    v["database_hash"] = json!("feedface");
+                }),
+                MetaState::Missing => {
+                    let _ = std::fs::remove_file(&meta);
+                }
+                MetaState::Truncated { at } => {
+                    let t = std::fs::read(&meta).unwrap();
+                    let n = at % t.len().max(1);
+                    std::fs::write(&meta, &t[..n]).unwrap();
+                }
+                MetaState::Garbage { variant } => {
+                    let body: Vec<u8> = match variant % 5 {
+                        0 => b"null".to_vec(),
+                        1 => b"{}".to_vec(),
+                        2 => b"{\"version\": 5, \"database_hash\": [1,2,3]}".to_vec(),
+                        3 => vec![0xff, 0xfe, 0x00, 0x80, 0x7b, 0x22],
+                        _ => b"[]".to_vec(),
+                    };
+                    std::fs::write(&meta, body).unwrap();
+                }
+                MetaState::NoHash => std::fs::write(&meta, json!({"version": ver}).to_string()).unwrap(),
+                MetaState::NoVersion => std::fs::write(&meta, json!({"database_hash": hash}).to_string()).unwrap(),
+                MetaState::NullHash => std::fs::write(&meta, json!({"version": ver, "database_hash": null}).to_string()).unwrap(),
+            }
+        }
     }
+}
+
+fn all_combos(seed: u64) -> Vec<Prior> {
+    let metas = vec![
+        MetaState::Current,
+        MetaState::OtherVersion,
+        MetaState::StaleHash,
+        MetaState::OtherVersionStaleHash,
+        MetaState::Missing,
+        MetaState::Truncated { at: (seed % 50) as usize + 1 },
+        MetaState::Garbage { variant: (seed % 5) as usize },
+        MetaState::NoHash,
+        MetaState::NoVersion,
+        MetaState::NullHash,
+    ];
+    let mut v = Vec::new();
+    for index in [IndexState::Complete, IndexState::OtherDocuments, IndexState::Missing, IndexState::EmptyDir] {
+        for m in &metas {
+            if index == IndexState::OtherDocuments && *m == MetaState::Current {
+                continue;
+            }
+            v.push(Prior::Combo { index: index.clone(), meta: m.clone() });
+        }
+    }
+    v
 }
 
 fn meta_is_current(dir: &Path) -> bool {
@@ -221,11 +327,12 @@ fn exec(h: &History, id: u64) -> CaseReport {
         CaseReport::fail(key.clone(), sig, json!({"history": h, "detail": detail}))
     };
     for (i, st) in h.starts.iter().enumerate() {
+        let is_strace = st.as_ref().map(|p| p.starts_with("strace:")).unwrap_or(false);
         let env: Vec<(&str, String)> = match st {
-            Some(p) => vec![("ANYTHING_VERIF_CRASH", p.clone())],
-            None => vec![],
+            Some(p) if !is_strace => vec![("ANYTHING_VERIF_CRASH", p.clone())],
+            _ => vec![],
         };
-        let res = run_probe("open", &dir, &r.qfile, &env, None);
+        let res = run_probe("open", &dir, &r.qfile, &env, if is_strace { st.as_deref() } else { None });
         match res {
             Ok(answers) => {
                 // the start completed (a crash point that was not reached counts as completing)
@@ -250,10 +357,15 @@ fn exec(h: &History, id: u64) -> CaseReport {
                 if st.is_none() {
                     return fail("start-fails", json!({"start": i, "status": status}));
                 }
-                if !status.contains("signal: 6") && !status.contains("SIGABRT") {
+                let killed = if is_strace { status.contains("signal: 9") } else { status.contains("signal: 6") };
+                if !killed {
                     return fail("start-fails", json!({"start": i, "status": status, "crash_point": st}));
                 }
                 let p = st.as_ref().unwrap();
+                if is_strace {
+                    crashed_mid_build = true;
+                    classes.push("syscall-kill");
+                }
                 if p.starts_with("add-document") || p == "after-delete-all" || p == "before-commit" || p == "after-commit" || p == "after-reload" || p == "meta-created" {
                     crashed_mid_build = true;
                 }
@@ -281,6 +393,9 @@ fn exec(h: &History, id: u64) -> CaseReport {
         Prior::MetaGarbage { .. } => "prior:meta-garbage",
         Prior::IndexMissing => "prior:index-missing",
         Prior::IndexEmptyDir => "prior:index-empty-dir",
+        Prior::Combo { index: IndexState::OtherDocuments, .. } => "prior:combo-other-documents",
+        Prior::Combo { index: IndexState::Complete, .. } => "prior:combo-complete-index",
+        Prior::Combo { .. } => "prior:combo-missing-or-empty-index",
     });
     CaseReport::pass(key, nontrivial, classes)
 }
@@ -342,6 +457,19 @@ pub fn run_check(ctx: &Ctx) {
             all.push(History { prior: p.clone(), starts: vec![Some(name), None] });
         }
     }
+    // every index state x every metadata state, completing start and one crash point each (rotating)
+    for (ci, p) in all_combos(ctx.seed).into_iter().enumerate() {
+        all.push(History { prior: p.clone(), starts: vec![None, None] });
+        let pt = POINTS[(ci + ctx.seed as usize) % POINTS.len()];
+        let name = if pt == "add-document" { format!("add-document@{}", 1 + mix(ctx.seed, ci as u64) % r.n_docs as u64) } else { pt.to_string() };
+        all.push(History { prior: p.clone(), starts: vec![Some(name), None] });
+        if ctx.tier == crate::runner::Tier::Thorough {
+            for pt in POINTS {
+                let name = if pt == "add-document" { format!("add-document@{}", 1 + mix(ctx.seed, 77 + ci as u64) % r.n_docs as u64) } else { pt.to_string() };
+                all.push(History { prior: p.clone(), starts: vec![Some(name), None] });
+            }
+        }
+    }
     // boundary document counts
     for k in [1usize, 2, r.n_docs - 1, r.n_docs] {
         all.push(History { prior: Prior::Absent, starts: vec![Some(format!("add-document@{}", k)), None] });
@@ -352,9 +480,11 @@ pub fn run_check(ctx: &Ctx) {
     for i in 0..nrand {
         let h = mix(ctx.seed, 1000 + i);
         let ps = priors(h);
-        let prior = match h % 12 {
+        let combos = all_combos(h);
+        let prior = match h % 16 {
             10 => Prior::MetaTruncated { at: (h >> 20) as usize % 80 },
             11 => Prior::MetaGarbage { variant: (h >> 20) as usize },
+            12..=15 => combos[((h >> 24) % combos.len() as u64) as usize].clone(),
             k => ps[(k % ps.len() as u64) as usize].clone(),
         };
         let n = 1 + (h >> 12) % 3;
@@ -363,6 +493,26 @@ pub fn run_check(ctx: &Ctx) {
         all.push(History { prior, starts });
     }
     ctx.put("systematic_histories", json!(all.len() as u64 - nrand - n_corpus as u64));
+    // hook-free tier: kill at the n-th system call of a class (strace fault injection), thorough only
+    if ctx.tier == crate::runner::Tier::Thorough && std::process::Command::new("strace").arg("-V").output().is_ok() {
+        let classes = ["write", "pwrite64", "fsync", "fdatasync", "rename", "renameat", "openat", "unlink", "unlinkat", "mkdir", "ftruncate", "close", "mmap", "munmap", "fcntl", "flock"];
+        let mut ns: Vec<u32> = (1..=40).collect();
+        ns.extend((45..=400).step_by(5));
+        let mut k = 0u64;
+        for sc in classes {
+            for n in &ns {
+                for prior in [Prior::Absent, Prior::Combo { index: IndexState::Complete, meta: MetaState::StaleHash }, Prior::IndexMissing] {
+                    // rotate priors to bound the cost: every point with one prior, every third with all
+                    k += 1;
+                    if prior != Prior::Absent && (k + *n as u64) % 3 != 0 {
+                        continue;
+                    }
+                    all.push(History { prior, starts: vec![Some(format!("strace:{}@{}", sc, n)), None] });
+                }
+            }
+        }
+        ctx.put("syscall_kill_sweep", json!({"classes": classes, "points_per_class": ns.len()}));
+    }
     let items: Vec<(u64, History)> = all.into_iter().enumerate().map(|(i, h)| (i as u64, h)).collect();
     ctx.run_enum("histories", items.len() as u64, |i| Some(items[i as usize].clone()), |(id, h)| exec(h, *id), |(_, h)| to_json(h));
     let _ = std::fs::remove_dir_all(&r.work);
